@@ -149,8 +149,47 @@ def import_(pid, rnd=1):
         json.dump(meta, open(os.path.join(dst, "meta.json"), "w"), indent=1)
 
 
+def refactors(pids):
+    """Import /tmp/seed/<pid>-out3/R*/ into /verif/refactors/<pid>rN/ and run the property's quick check with
+    each applied: the expected outcome is exit 0 (silent); exit 1 is a FALSE ALARM, exit 2 a declared limitation."""
+    import shutil
+    rc, out = sh("git -C /repo status --porcelain --untracked-files=no")
+    if out.strip():
+        print("refusing: /repo has local modifications"); return 2
+    for pid in pids:
+        outd = f"/tmp/seed/{pid}-out3"
+        if os.path.isdir(outd):
+            for sub in sorted(os.listdir(outd)):
+                srcd = os.path.join(outd, sub)
+                if os.path.isfile(os.path.join(srcd, "patch.diff")):
+                    dst = os.path.join(VERIF, "refactors", f"{pid}{sub.lower()}")
+                    os.makedirs(dst, exist_ok=True)
+                    for fn in ("patch.diff", "equiv.py", "meta.json"):
+                        if os.path.isfile(os.path.join(srcd, fn)):
+                            shutil.copy(os.path.join(srcd, fn), os.path.join(dst, fn))
+        for d in sorted(glob.glob(os.path.join(VERIF, "refactors", f"{pid}r*"))):
+            rid = os.path.basename(d)
+            rc, out = sh(f"git -C /repo apply {d}/patch.diff")
+            if rc != 0:
+                print(f"{rid}: patch does not apply"); continue
+            try:
+                rc, out = sh(f"{PY} sa/check.py --property {pid} --tier quick --no-evidence", cwd=VERIF)
+                verdict = {0: "silent", 1: "FALSE-ALARM", 2: "analysis-error"}.get(rc, f"exit {rc}")
+                det = [l.strip()[:200] for l in out.splitlines() if l.strip().startswith(("rule=", "construct=", "ANALYSIS-ERROR"))][:4]
+                print(f"{rid}: {verdict} " + " ".join(det))
+                mp = os.path.join(d, "meta.json")
+                if os.path.isfile(mp):
+                    m = json.load(open(mp)); m["check_outcome"] = verdict; m["check_detail"] = det
+                    json.dump(m, open(mp, "w"), indent=1)
+            finally:
+                sh("git -C /repo checkout -- .")
+    return 0
+
+
 if __name__ == "__main__":
     a = sys.argv[1:]
+    if a and a[0] == "refactors":
+        sys.exit(refactors([x for x in a[1:] if x.startswith("C")]))
     if a and a[0] == "import":
         rnd = int(a[a.index("--round") + 1]) if "--round" in a else 1
         for pid in [x for x in a[1:] if x.startswith("C")]:
